@@ -103,7 +103,7 @@ func privateSlices(m *MIME) {
 // VerifSnapshotTree records the current shape of the tree.
 func VerifSnapshotTree() *VerifTree {
 	s := &VerifTree{}
-	rv := reflect.ValueOf(&root).Elem()
+	rv := verifRootValue()
 	s.root = reflect.New(rv.Type()).Elem()
 	s.root.Set(rv)
 	verifVisit(rv, map[unsafe.Pointer]bool{}, s, 0)
@@ -114,7 +114,9 @@ func VerifSnapshotTree() *VerifTree {
 // later become unreachable. Slices held by the saved values are re-copied so
 // that a later in-place change cannot reach into the snapshot.
 func (s *VerifTree) Restore() {
-	reflect.ValueOf(&root).Elem().Set(s.root)
+	if rv := verifRootValue(); rv.CanSet() {
+		rv.Set(s.root)
+	}
 	for i, n := range s.nodes {
 		*n = s.saved[i]
 		privateSlices(n)
